@@ -319,6 +319,7 @@ func (p *c13) RunCase(ctx *runner.Ctx) runner.CaseResult {
 		p.malformed(x, adapt.Adapters[ctx.Case-blocks], ctx)
 		p.numberKeys(x, adapt.Adapters[ctx.Case-blocks], ctx)
 		p.keysSurviveIndexChurn(x, adapt.Adapters[ctx.Case-blocks])
+		p.keySchemas(x, adapt.Adapters[ctx.Case-blocks])
 	case ctx.Case < blocks+4:
 		p.keyUpdates(x, adapt.Adapters[ctx.Case-blocks-2], ctx)
 	case ctx.Case < blocks+6:
@@ -633,6 +634,67 @@ func (p *c13) numberKeys(x *res, adapter string, ctx *runner.Ctx) {
 // also after secondary indexes over those very attributes (the inverted index, an index on the sort key alone)
 // were created and deleted. Afterwards every stored item is retrievable under its key, a number key is still
 // identified by its value, and a request that would re-declare the key attribute with another type is refused.
+// keySchemas: key schemas no table can have - a key attribute declared with a type that has no identity to key by
+// (BOOL, NULL, L, M and the sets), two HASH elements, two RANGE elements, an unknown key type - for the table and
+// for a secondary index. DynamoDB refuses them; a table created from one anyway must at least keep its items apart
+// by their key values (one item per key: written twice, it is still one item, and it is found under its key).
+func (p *c13) keySchemas(x *res, adapter string) {
+	type sc struct {
+		name string
+		spec adapt.TableSpec
+		item val.Item
+	}
+	cases := []sc{}
+	other := map[string]val.V{"BOOL": val.Bool(true), "NULL": val.Null(), "L": val.List(val.Str("a")), "M": val.Map(map[string]val.V{"k": val.Str("a")}), "SS": val.SS("a"), "NS": val.NS("1"), "BS": val.BS("a")}
+	kinds := []string{"BOOL", "NULL", "L", "M", "SS", "NS", "BS"}
+	for _, t := range kinds {
+		cases = append(cases,
+			sc{"hash-type-" + t, adapt.TableSpec{Name: "tbl13k", Hash: "h", HashT: t, Billing: "PAY_PER_REQUEST"}, val.Item{"h": other[t]}},
+			sc{"range-type-" + t, adapt.TableSpec{Name: "tbl13k", Hash: "h", Range: "r", RangeT: t, Billing: "PAY_PER_REQUEST"}, val.Item{"h": val.Str("a"), "r": other[t]}},
+			sc{"index-hash-type-" + t, adapt.TableSpec{Name: "tbl13k", Hash: "h", Billing: "PAY_PER_REQUEST", Indexes: []adapt.IndexSpec{{Name: "gsi", Hash: "g", HashT: t}}}, val.Item{"h": val.Str("a"), "g": other[t]}},
+			sc{"local-index-range-type-" + t, adapt.TableSpec{Name: "tbl13k", Hash: "h", Range: "r", Billing: "PAY_PER_REQUEST", Indexes: []adapt.IndexSpec{{Name: "lsi", Hash: "h", Range: "g", RangeT: t, Local: true}}}, val.Item{"h": val.Str("a"), "r": val.Str("b"), "g": other[t]}})
+	}
+	raw := func(name string, els ...[2]string) sc {
+		return sc{name, adapt.TableSpec{Name: "tbl13k", Hash: "h", Range: "r", Billing: "PAY_PER_REQUEST", RawKeySchema: els}, val.Item{"h": val.Str("a"), "r": val.Str("b"), "c": val.Str("c")}}
+	}
+	cases = append(cases,
+		raw("two-hash-elements", [2]string{"h", "HASH"}, [2]string{"r", "HASH"}),
+		raw("two-range-elements", [2]string{"h", "HASH"}, [2]string{"r", "RANGE"}, [2]string{"c", "RANGE"}),
+		raw("range-before-second-range", [2]string{"r", "RANGE"}, [2]string{"h", "HASH"}, [2]string{"c", "RANGE"}),
+		raw("unknown-key-type", [2]string{"h", "HASH"}, [2]string{"r", "SORT"}),
+		raw("lower-case-key-type", [2]string{"h", "hash"}),
+		raw("hash-element-twice", [2]string{"h", "HASH"}, [2]string{"h", "HASH"}),
+		raw("no-hash-element", [2]string{"r", "RANGE"}),
+	)
+	for _, c := range cases {
+		cl := adapt.New(adapter)
+		spec := c.spec
+		o := cl.Do(createOp(spec))
+		x.r.Evals++
+		x.fp(true, "keyschema|%s|%s", adapter, c.name)
+		x.r.Counters["key_schemas:"+o.Class]++
+		wit := map[string]interface{}{"adapter": adapter, "schema": spec, "create": o}
+		switch o.Class {
+		case adapt.ClsRuntime:
+			x.viol("runtime-panic", o.Site, fmt.Sprintf("[%s] CreateTable with the key schema %s: runtime panic at %s: %s", adapter, c.name, o.Site, o.Msg), wit)
+		case adapt.ClsOK:
+			// accepted: then the table has to keep its word about key identity
+			p1 := cl.Do(adapt.Op{Kind: adapt.OpPut, Table: spec.Name, Item: c.item})
+			it2 := c.item.Clone()
+			it2["w"] = val.Str("second write")
+			p2 := cl.Do(adapt.Op{Kind: adapt.OpPut, Table: spec.Name, Item: it2})
+			scan := cl.Do(adapt.Op{Kind: adapt.OpScan, Table: spec.Name})
+			x.r.Evals += 3
+			wit["put1"], wit["put2"], wit["scan"] = p1, p2, scan
+			feature := "accepted"
+			if p1.Class == adapt.ClsOK && p2.Class == adapt.ClsOK && len(scan.Items) != 1 {
+				feature = "accepted-and-keys-collide-or-split"
+			}
+			x.viol("malformed-key-schema-accepted", feature+"/"+strings.TrimRight(c.name, "BOLNSMU-"), fmt.Sprintf("[%s] CreateTable with the key schema %q is accepted (DynamoDB: ValidationException); two writes of one key then leave %d items (put: %s, %s)", adapter, c.name, len(scan.Items), p1.Class, p2.Class), wit)
+		}
+	}
+}
+
 func (p *c13) keysSurviveIndexChurn(x *res, adapter string) {
 	spec := adapt.TableSpec{Name: "tbl13c", Hash: "h", Range: "r", RangeT: "N", Billing: "PAY_PER_REQUEST", Indexes: []adapt.IndexSpec{
 		{Name: "inv", Hash: "r", HashT: "N", Range: "h"}, {Name: "byr", Hash: "r", HashT: "N"}, {Name: "gsi1", Hash: "g"}}}
